@@ -6,6 +6,7 @@ ASAN_SEGV = re.compile(r'==\d+==ERROR: AddressSanitizer: (SEGV|stack-overflow|BU
 FRAME = re.compile(r'^\s*#(\d+) 0x[0-9a-f]+ in (\S+) (\S+?)(?::\d+)?(?::\d+)?$')
 FRAME2 = re.compile(r'^\s*#(\d+) 0x[0-9a-f]+ in (\S+)')
 UBSAN = re.compile(r'(\S+?):(\d+):(?:(\d+):)? runtime error: (.*)$')
+MSAN_HEAD = re.compile(r'==\d+==WARNING: MemorySanitizer: ([^\s:]+)')
 TSAN_FRAME = re.compile(r'^\s*#(\d+) (\S+) (\S+?)(?::\d+)?(?::\d+)? \(')
 TSAN_HEAD = re.compile(r'WARNING: ThreadSanitizer: ([^\(]+?) \(pid')
 
@@ -61,6 +62,11 @@ def parse(text, repo_hint=None):
             kind = m.group(2)
             fr = frames(lines, i + 1)
             out.append(('asan:%s:%s' % (kind, innermost_repo_frame(fr, repo_hint)), l.strip()[:300]))
+            continue
+        m = MSAN_HEAD.search(l)
+        if m:
+            fr = frames(lines, i + 1)
+            out.append(('msan:%s:%s' % (m.group(1), innermost_repo_frame(fr, repo_hint)), l.strip()[:300]))
             continue
         m = UBSAN.search(l.strip())
         if m:
